@@ -19,6 +19,8 @@ var corpus = [][]string{
 	{`put [&foo=bar &lorem=ipsum][foo]`, `put [&a=10 &b=23 &sum=(+ 10 23)][sum]`, `var m = [&k=v]`, `set m[k2] = v2`, `put $m[k2] (count $m)`, `put $m[nokey]`},
 	{`put (num 6)[0]`, `put $nil[a]`, `put [a b][2]`, `put [a b][-3]`, `put [a b][x]`, `put abc[1..]`, `put [a b c][2..1]`},
 	{`+ 1 10 100`, `var x = (+ 1 10 100)`, `put $x`, `- 5`, `- 10 3 2`, `* 2 3 4`, `*`, `+`, `-`, `< 1 2 3`, `< 1 3 2`, `== 1 1 1`, `!= 1 2`, `!= 1`, `>= 3 3 1`, `+ a 1`, `% 7 -2`, `% -7 2`, `% 1 0`},
+	{`has-key [&a=b] a`, `has-key [&a=b] x`, `has-key [a b] 1`, `has-key [a b] 2`, `has-key [a b] x`, `has-key [a b c] 0..2`, `has-value [a b] b`, `has-value [&k=v] v`, `has-value [&k=v] k`, `assoc [a b] 0 x`, `assoc [a b] 2 x`, `assoc [&k=v] k2 v2`, `dissoc [&k=v &j=w] k`, `dissoc [&k=v] nokey`, `conj [a] b c`, `conj [a]`, `conj`, `to-string (num 12)`, `to-string a b`, `kind-of a [] [&] (num 1) $nil $true { } ?(fail x)`, `bool $nil`, `bool []`, `not a`, `not $false`},
+	{`/ 6 3`, `/ 12 2 3`, `/ -6 3`, `/ 6 0`, `/ 0 6`, `/ 1`, `/ 0`, `num 12`, `num x`, `num (num 3)`, `num []`, `eq a a`, `eq a b`, `eq [a [b]] [a [b]]`, `eq [&a=b &c=d] [&c=d &a=b]`, `eq a (num 1)`, `eq 1 (num 1)`, `not-eq a b`, `not-eq a`, `eq`, `eq a`},
 	// ---- closures
 	{`fn make-adder { var n = 0; put { put $n } { set n = (+ $n 1) } }`, `var getter adder = (make-adder)`, `$getter`, `$adder`, `$getter`, `var getter2 adder2 = (make-adder)`, `$getter2`, `$getter`},
 	{`var f = {|a b| put $b $a }`, `$f lorem ipsum`, `$f lorem`, `$f a b c`},
